@@ -36,6 +36,10 @@ RULE = ("vec.* cases: (a) for every length 0..8 (rationals) one history containi
         "constant negative, alternating +-c, one non-zero entry first / last, negative maximum first / last; lengths 1, 2, 3, 8), norm-laws-structured "
         "(v = u, v = -u, v = 0; c = 0, 1, -1, 2, 1/2), complex-structured (entries on the axes, unit modulus, equal moduli), sort-ord-structured (sorted, "
         "reversed, constant, two values; lengths 0, 1, 2), f64-times-vector-structured, constructors-structured; "
+        "floats of a history are compared with the list model ITEM BY ITEM (veclib.result_scales / carried_scales): element-wise products and "
+        "quotients within 1e-12 of the item itself, element-wise sums within 1e-12 of the larger operand, reductions within 1e-12 of the sum of the magnitudes of their terms, "
+        "moved / copied / negated entries identical when they are inputs and within the scale they were computed with otherwise (the scale travels with the entry); "
+        "a history the list model cannot follow (python OverflowError) is not judged and is counted (oracle_histories_not_judged); "
         "distinct = distinct executor line; non-trivial = non-empty vector or an operation that must panic")
 TRUSTED = ["Coq 8.16.1 kernel + vm_compute (primitive floats: bit-exact IEEE binary64)", "Flocq 4 (IEEE754.PrimFloat, BinarySingleNaN) and Coq's FloatAxioms for the two *_exact_float theorems", "Rust executor /verif/harness (kinds vec.*; Rat = i128 rationals)",
            "python driver: generators, plain-list reference model, mpmath norm reference, stream comparators",
@@ -47,12 +51,12 @@ ASSUMPTIONS = ["Rust semantics of Vec/usize as modelled (checked indexing, debug
                "the sampled cases are where model and code were compared; the theorems are about the model"]
 UNPROVED = ["norm_p over R: non-negativity, homogeneity and norm_p = norm_1 / norm_2 at p = 1 / 2 are proved (pow on non-negative arguments as the real power function); "
             "Minkowski (triangle inequality) and inf <= p <= 1 for general p are searched only for vectors (for MATRICES norm_p_triangle of Props/C03.v proves Minkowski for p >= 1)",
-            "round two: dot_backward_error, sum_slice_backward_error, norm_1_relative_error (gamma_n), norm_2_relative_error (gamma_{n+1}) in the standard model, dot/sum/norm_1 also at binary64 via Flocq; the norm LAWS 'up to rounding' over f64 remain searched (1e-12 slack on data of moderate magnitude; proved over R only) and FAIL for entries whose square overflows/underflows (recorded finding f64-square-range)",
+            "round two: dot_backward_error, sum_slice_backward_error, norm_1_relative_error (gamma_n), norm_2_relative_error (gamma_{n+1}) in the standard model, dot/sum/norm_1 also at binary64 via Flocq; the norm LAWS 'up to rounding' over f64 remain searched (every value within 1e-12 of the definition's, the laws between the returned values with 4e-12 slack; proved over R only) and FAIL for entries whose square overflows/underflows (recorded finding f64-square-range)",
             "powspace / norm_p over f64 depend on libm pow: tied by tolerance (table of the calls) and searched; their theorems are over R with pow as the real power function",
             "complex / rational vectors (package cnorm, coq/Proofs/VectorCx2.v, VectorCx2Q.v; pinned at the end of coq/Props/C15.v): for Vector<Complex<f64>>::norm_inf "
             "(vec_cmplx.rs) and the generic norm_1 (through Signed::abs = (|z|, 0)) the laws (maximum of the moduli, non-negativity, definiteness, homogeneity, triangle inequality, "
             "norm_inf <= norm_1 <= n norm_inf, exact panic condition) and Cauchy-Schwarz for the bilinear dot are proved over C = R x R and (norm_1) over Qc, and searched on "
-            "Complex<f64> (1e-12 slack, entries of moderate magnitude) and Rat (exactly); over IEEE binary64 (Flocq) both complex norms are exact on Gaussian integers of integer modulus "
+            "Complex<f64> (values within 1e-12, laws with 4e-12 slack, entries of moderate magnitude) and Rat (exactly); over IEEE binary64 (Flocq) both complex norms are exact on Gaussian integers of integer modulus "
             "(cnorm_inf_exact_float, cnorm1_exact_float), and in the standard model of floating-point arithmetic with a rounded square root fl|z| = |z|(1+th), |th| <= gam 3, "
             "fl(norm_inf) = max|z_i|(1+th), |th| <= gam 3, re fl(norm_1) = Sum|z_k|(1+th_k), |th_k| <= gam(n+3) (coq/Proofs/VectorCx2R.v); what stays unproved is the standard model "
             "itself for Complex<f64> (no Flocq bridge for the complex norms on general data), and the laws FAIL on the real code when re^2 + im^2 leaves the f64 range "
@@ -78,9 +82,11 @@ MANIFEST = dict(
           "sort_by with non-ascending comparators, Clone::clone_from, the public field, and the f64 / complex views after every pair of editing "
           "operation classes (families edit-pairs-*, history-x-*)."),
     note=("Norm laws are proved over R, not over f64 (rounding, overflow/underflow of the naive norm_2 are outside the theorems); "
-          "norm_p/powspace go through libm and are tied by tolerance; Minkowski for general p is searched only. The search draws entries of "
-          "magnitude 1e-3..1e3: for entries beyond ~1e154 (below ~1e-162) the unscaled norm_2/norm_p overflow (underflow) and the laws fail "
-          "on the real code, linspace fails when b-a overflows -- observed, written up in findings/C15-norm-range.md, not in the default search."),
+          "norm_p/powspace go through libm and are tied by tolerance; Minkowski for general p is searched only. The general families draw entries of "
+          "magnitude 1e-3..1e3; the family range-extreme, which runs in EVERY check, draws entries beyond ~1e154 (below ~1e-162) and spacings whose b-a overflows: "
+          "there the unscaled norm_2/norm_p overflow (underflow), the laws fail on the real code and linspace starts with NaN -- reported by the oracle on every run and "
+          "classified as the recorded finding f64-square-range (KNOWN_FINDINGS.txt, findings/C15-norm-range.md; key granted only when the sum of squares / powers the failing "
+          "call accumulates on its operand, evaluated in IEEE arithmetic, leaves the normal range, resp. b-a is not finite); every other failure of the same case is still reported."),
     technique="Coq proof over abstract ring/field and R + model/implementation differential execution (vm_compute vs Rust executor)",
     design="7 (C15)")
 
@@ -687,16 +693,24 @@ def normlaws_vectors(m):
     return [u, v, [a + b for a, b in zip(u, v)], [a * c for a in u]]
 
 def check_norm_values(vec, got, p, w):
-    """got = [norm_1, norm_2, norm_p, norm_inf] as returned for `vec`.  None, or a description that starts with the tag
-    [<operation>#<w>] of the first operation whose value is not the definition's (norm_1 and norm_inf first)."""
+    """got = [norm_1, norm_2, norm_p, norm_inf] as returned for `vec`.  EVERY operation whose value is not the definition's,
+    as a list of (column, description); the description starts with the tag [<operation>#<w>] (norm_inf and norm_1 first).
+    All of them are collected: a failure that finding_key downgrades to a recorded finding must not hide another one."""
     n1, n2, npp, ninf = ref_norms(vec, p)
     scale = float(n1) if n1 < 1e308 else None
     g1, g2, gp, ginf = got
-    if ginf != float(ninf): return "[norm_inf#%d] norm_inf of %r is %r, definition gives %r" % (w, vec, ginf, float(ninf))
-    if not close(g1, n1, scale): return "[norm_1#%d] norm_1 of %r is %r, definition gives %r" % (w, vec, g1, float(n1))
-    if not close(g2, n2, scale): return "[norm_2#%d] norm_2 of %r is %r, definition gives %r" % (w, vec, g2, float(n2))
-    if not close(gp, npp, scale): return "[norm_p#%d] norm_p(%r) of %r is %r, definition gives %r" % (w, p, vec, gp, float(npp))
-    return None
+    out = []
+    if ginf != float(ninf): out.append((3, "[norm_inf#%d] norm_inf of %r is %r, definition gives %r" % (w, vec, ginf, float(ninf))))
+    if not close(g1, n1, scale): out.append((0, "[norm_1#%d] norm_1 of %r is %r, definition gives %r" % (w, vec, g1, float(n1))))
+    if not close(g2, n2, scale): out.append((1, "[norm_2#%d] norm_2 of %r is %r, definition gives %r" % (w, vec, g2, float(n2))))
+    if not close(gp, npp, scale): out.append((2, "[norm_p#%d] norm_p(%r) of %r is %r, definition gives %r" % (w, p, vec, gp, float(npp))))
+    return out
+
+def pick_failure(case, descs):
+    """of all the failures of one case: the first that is NOT a recorded finding (it is reported), else the first"""
+    for d in descs:
+        if finding_key(case, d, None) is None: return d
+    return descs[0] if descs else None
 
 # ------------------------------------------------------------------ norm laws on complex / rational vectors (package cnorm)
 def cmul_ieee(x, c):
@@ -707,12 +721,14 @@ def cnormlaws_vectors(m):
     u, v, c = m["u"], m["v"], m["c"]
     return [u, v, [complex(a.real + b.real, a.imag + b.imag) for a, b in zip(u, v)], [cmul_ieee(a, c) for a in u]]
 
-def oracle_cnormlaws(m, items):
+def oracle_cnormlaws(case, items):
     """Complex<f64>.  (1) every returned value is the definition's value of the vector it was computed from (mpmath, 50
     digits): norm_1 = (sum |z_i|, 0) with imaginary part exactly 0, norm_inf = max |z_i|, dot = the bilinear sum;
     (2) the laws hold BETWEEN THE RETURNED VALUES: non-negativity, definiteness, homogeneity, triangle inequality,
-    norm_inf <= norm_1 <= n norm_inf, Cauchy-Schwarz |dot| <= sqrt(sum|u_i|^2) sqrt(sum|v_i|^2).  Slack 1e-12 (relative),
-    as for the real vectors; the generated entries have moderate magnitude (no overflow / underflow of |z|^2)."""
+    norm_inf <= norm_1 <= n norm_inf, Cauchy-Schwarz |dot| <= sqrt(sum|u_i|^2) sqrt(sum|v_i|^2).  Values within 1e-12
+    (relative), laws with slack 4e-12 (a law combines up to three values that (1) pins to 1e-12 each), as for the real
+    vectors; the generated entries have moderate magnitude (no overflow / underflow of |z|^2)."""
+    m = case.meta
     u, v, c = m["u"], m["v"], m["c"]
     if len(u) != len(v):
         return None if items and items[-1][0] == 'P' else "u + v with mismatched sizes did not panic (complex)"
@@ -727,36 +743,43 @@ def oracle_cnormlaws(m, items):
     N1 = [fl(items, 2 + 3 * w) for w in range(4)]; N1im = [fl(items, 3 + 3 * w) for w in range(4)]; NI = [fl(items, 4 + 3 * w) for w in range(4)]
     names = ["u", "v", "u+v", "u*c"]
     mod = lambda z: mp.sqrt(mp.mpf(z.real) ** 2 + mp.mpf(z.imag) ** 2)
+    # every failure of the case is collected (as for the real vectors): pick_failure reports the first that is not the
+    # recorded finding, so a downgraded [cnorm_1#w] on a range-extreme operand cannot hide a dot / norm / law failure
+    fails = []; bad = set()          # bad: (row, 0 = norm_1 | 1 = norm_inf) of the values that are not the definition's
     # (1) values
     for w, vec in enumerate(vecs):
         ms = [mod(z) for z in vec]
         s1 = mp.fsum(ms); mx = max(ms)
-        if N1im[w] != 0.0: return "[cnorm_1#%d] norm_1 of the complex vector %s = %r has imaginary part %r, not 0" % (w, names[w], vec, N1im[w])
-        if not close(N1[w], s1): return "[cnorm_1#%d] norm_1 of %s = %r is %r, sum of the moduli is %r" % (w, names[w], vec, N1[w], float(s1))
-        if not close(NI[w], mx): return "[cnorm_inf#%d] norm_inf of %s = %r is %r, largest modulus is %r" % (w, names[w], vec, NI[w], float(mx))
+        if N1im[w] != 0.0: bad.add((w, 0)); fails.append("[cnorm_1#%d] norm_1 of the complex vector %s = %r has imaginary part %r, not 0" % (w, names[w], vec, N1im[w]))
+        elif not close(N1[w], s1): bad.add((w, 0)); fails.append("[cnorm_1#%d] norm_1 of %s = %r is %r, sum of the moduli is %r" % (w, names[w], vec, N1[w], float(s1)))
+        if not close(NI[w], mx): bad.add((w, 1)); fails.append("[cnorm_inf#%d] norm_inf of %s = %r is %r, largest modulus is %r" % (w, names[w], vec, NI[w], float(mx)))
     dre = mp.fsum([mp.mpf(a.real) * mp.mpf(b.real) - mp.mpf(a.imag) * mp.mpf(b.imag) for a, b in zip(u, v)])
     dim = mp.fsum([mp.mpf(a.real) * mp.mpf(b.imag) + mp.mpf(a.imag) * mp.mpf(b.real) for a, b in zip(u, v)])
     dscale = float(mp.fsum([mod(a) * mod(b) for a, b in zip(u, v)]))
-    if not (close(dot.real, dre, dscale) and close(dot.imag, dim, dscale)):
-        return "[cdot] dot of %r and %r is %r, the bilinear sum is %r" % (u, v, dot, complex(float(dre), float(dim)))
-    # (2) laws between the returned values
-    sl = 1e-12
+    dot_ok = close(dot.real, dre, dscale) and close(dot.imag, dim, dscale)
+    if not dot_ok:
+        fails.append("[cdot] dot of %r and %r is %r, the bilinear sum is %r" % (u, v, dot, complex(float(dre), float(dim))))
+    # (2) laws between the returned values; a law instance is judged when every value it involves passed (1)
+    sl = 4e-12
     cabs = float(mod(c))
-    for nm, N in (("norm_1", N1), ("norm_inf", NI)):
+    for k, (nm, N) in enumerate((("norm_1", N1), ("norm_inf", NI))):
         nu, nv, ns, nc = N
-        if min(N) < 0 or any(x != x for x in N): return "[claw] complex %s is negative or NaN on %r / %r" % (nm, u, v)
-        if ns > (nu + nv) * (1 + sl) + 1e-300: return "[claw] triangle inequality fails for complex %s: |u+v| = %r > |u| + |v| = %r (u = %r, v = %r)" % (nm, ns, nu + nv, u, v)
-        if abs(nc - cabs * nu) > sl * max(nc, cabs * nu) + 1e-300: return "[claw] homogeneity fails for complex %s: |u c| = %r, |c| |u| = %r (c = %r, u = %r)" % (nm, nc, cabs * nu, c, u)
+        ok = lambda *ws: not any((w, k) in bad for w in ws)
+        for w in range(4):
+            if ok(w) and not (N[w] >= 0): fails.append("[claw] complex %s is negative or NaN on %r / %r" % (nm, u, v))
+        if ok(0, 1, 2) and not (ns <= (nu + nv) * (1 + sl) + 1e-300): fails.append("[claw] triangle inequality fails for complex %s: |u+v| = %r > |u| + |v| = %r (u = %r, v = %r)" % (nm, ns, nu + nv, u, v))
+        if ok(0, 3) and not (abs(nc - cabs * nu) <= sl * max(nc, cabs * nu) + 1e-300): fails.append("[claw] homogeneity fails for complex %s: |u c| = %r, |c| |u| = %r (c = %r, u = %r)" % (nm, nc, cabs * nu, c, u))
     for w, vec in enumerate(vecs):
+        if {(w, 0), (w, 1)} & bad: continue
         allzero = all(z == 0 for z in vec)
         if (N1[w] == 0.0) != allzero or (NI[w] == 0.0) != allzero:
-            return "[claw] definiteness fails on %s = %r: norm_1 = %r, norm_inf = %r" % (names[w], vec, N1[w], NI[w])
+            fails.append("[claw] definiteness fails on %s = %r: norm_1 = %r, norm_inf = %r" % (names[w], vec, N1[w], NI[w]))
         if not (NI[w] <= N1[w] * (1 + sl) and N1[w] <= len(vec) * NI[w] * (1 + sl)):
-            return "[claw] norm_inf <= norm_1 <= n norm_inf fails on %s = %r: %r, %r" % (names[w], vec, NI[w], N1[w])
+            fails.append("[claw] norm_inf <= norm_1 <= n norm_inf fails on %s = %r: %r, %r" % (names[w], vec, NI[w], N1[w]))
     s2u = mp.sqrt(mp.fsum([mod(z) ** 2 for z in u])); s2v = mp.sqrt(mp.fsum([mod(z) ** 2 for z in v]))
-    if abs(dot) > float(s2u * s2v) * (1 + sl) + 1e-300:
-        return "[claw] Cauchy-Schwarz fails: |dot(u,v)| = %r > %r (u = %r, v = %r)" % (abs(dot), float(s2u * s2v), u, v)
-    return None
+    if dot_ok and not (abs(dot) <= float(s2u * s2v) * (1 + sl) + 1e-300):
+        fails.append("[claw] Cauchy-Schwarz fails: |dot(u,v)| = %r > %r (u = %r, v = %r)" % (abs(dot), float(s2u * s2v), u, v))
+    return pick_failure(case, fails)
 
 def oracle_n1laws_rat(m, items):
     """Rat, exact: values against Fraction arithmetic, then the laws between the returned values"""
@@ -791,50 +814,75 @@ F64_MIN_NORMAL = 2.2250738585072014e-308
 def square_leaves_normal_range(x):
     """x finite and non-zero whose square is not a normal f64 (overflows, or underflows to a subnormal / zero)"""
     if x == 0 or not math.isfinite(x): return False
-    try:
-        y = x * x
-    except OverflowError:
-        return True
+    y = x * x
     return (not math.isfinite(y)) or abs(y) < F64_MIN_NORMAL
 
+def accumulated_leaves_normal_range(terms):
+    """terms: the non-negative f64 values the pinned code adds up (|x|^2 for norm_2, |x|^p for norm_p, re^2 and im^2 for
+    Complex::abs), in its order and in IEEE arithmetic.  True when a term comes from a non-zero entry (the caller passes
+    only those vectors) and the ACCUMULATED value is not a normal f64: it overflowed, or it is below 2^-1022 (subnormal or
+    zero).  While the accumulated value stays normal an underflowed term costs at most 2^-1075 each against a total of at
+    least 2^-1022, i.e. the pinned code is accurate and a failure there is not the recorded finding."""
+    acc = 0.0
+    for t in terms: acc = acc + t
+    return (not math.isfinite(acc)) or acc < F64_MIN_NORMAL
+
 def finding_key(case, desc, items):
-    """`f64-square-range` exactly when the failing operation is norm_2 / norm_p / linspace / powspace on f64 AND the
-    INPUT of that operation has a component whose square (for the spacings: the difference b - a) is outside the
-    normal f64 range.  Decided from the input, never from the failure; everything else stays a VIOLATION."""
+    """`f64-square-range` exactly when the failing operation is norm_2 / norm_p / linspace / powspace on f64 AND the sum
+    that operation accumulates on ITS operand (norm_2: the squares, norm_p: the powers |x|^p; evaluated here in IEEE
+    arithmetic, in the order of the code) is outside the normal f64 range (for the spacings: the difference b - a is).
+    A single entry whose own square underflows next to entries that dominate the sum ([1.0, 1e-160]) does not grant the
+    key: the pinned code is accurate there.  Decided from the input, never from the failure; everything else stays a VIOLATION."""
     m = case.meta; kind = m.get("kind")
     import re as _re
     if kind == "cnormlaws" and isinstance(desc, str):
         # package cnorm: the complex twin of the same cause (Complex::abs = sqrt(re^2 + im^2), unscaled; recorded for C01 as
         # cplx-sqmod-range; KNOWN_FINDINGS.txt has the C15 line with this key, witnesses corpus/C15/kf_cplx_scale_*.json).  The default generators do NOT draw such entries:
-        # the key is decided from the INPUT (an entry whose squared modulus leaves the normal range), never from the failure.
+        # the key is decided from the INPUT (an entry of the operand of the failing call whose squared modulus re^2 + im^2,
+        # evaluated in IEEE arithmetic, leaves the normal range; a component whose own square underflows next to a
+        # dominating one -- 1 + 1e-160 i -- does not count), never from the failure.
         t = _re.match(r"\[(cnorm_1|cnorm_inf)#(\d)\]", desc)
         if t:
             vec = cnormlaws_vectors(m)[int(t.group(2))]
             def sq_out(z):
                 if z == 0 or not (math.isfinite(z.real) and math.isfinite(z.imag)): return False
-                try: y = z.real * z.real + z.imag * z.imag
-                except OverflowError: return True
-                return (not math.isfinite(y)) or y < F64_MIN_NORMAL or square_leaves_normal_range(z.real) or square_leaves_normal_range(z.imag)
+                return accumulated_leaves_normal_range([z.real * z.real, z.imag * z.imag])
             return "cplx-sqmod-range" if any(sq_out(z) for z in vec) else None
         return None
     if case.elt != 'f64' or not isinstance(desc, str): return None
     t = _re.match(r"\[(norm_2|norm_p)#(\d)\]", desc)
     if t and kind in ("norms", "normlaws"):
         vec = m["v"] if kind == "norms" else normlaws_vectors(m)[int(t.group(2))]
-        return "f64-square-range" if any(square_leaves_normal_range(x) for x in vec) else None
+        if not all(math.isfinite(x) for x in vec) or all(x == 0 for x in vec): return None
+        if t.group(1) == "norm_2": terms = [abs(x) * abs(x) for x in vec]
+        else: terms = [cpow(abs(x), m["p"]) for x in vec]
+        return "f64-square-range" if accumulated_leaves_normal_range(terms) else None
     if kind in ("linspace", "powspace") and desc.startswith("[%s]" % kind):
         return "f64-square-range" if not math.isfinite(m["b"] - m["a"]) else None
     return None
+
+NOT_JUDGED = {}        # family -> histories the list model could not follow (OverflowError / ZeroDivisionError): dropped from the search
+JUDGED = [0]
+
+def extra_coverage():
+    return {"oracle_histories_judged": JUDGED[0], "oracle_histories_not_judged": sum(NOT_JUDGED.values()),
+            "oracle_histories_not_judged_by_family": dict(NOT_JUDGED)}
 
 def oracle(case, items):
     m = case.meta; kind = m.get("kind")
     elt = case.elt
     if kind == "hist":
+        sc = []
         try:
-            exp = ref_vhist(elt, m["v0"], m["ops"])
+            exp = ref_vhist(elt, m["v0"], m["ops"], sc)
         except (OverflowError, ZeroDivisionError):
+            # the plain list model cannot follow this history (python float overflow in pow / a division python rejects):
+            # the history is NOT judged by the search; counted, per family, in the coverage (oracle_histories_not_judged)
+            NOT_JUDGED[case.family] = NOT_JUDGED.get(case.family, 0) + 1
             return None
-        d = streams_match(exp, items, 0.0 if elt == 'rat' else 1e-12)
+        JUDGED[0] += 1
+        # floats item by item against the item's own error scale (veclib.result_scales / carried_scales), not the largest of the run
+        d = streams_match(exp, items, 0.0 if elt == 'rat' else 1e-12, sc)
         if d: return "vector history disagrees with the plain list model: " + d
         return None
     if kind == "norms":
@@ -844,7 +892,7 @@ def oracle(case, items):
             if not all(fl(items, k) == 0.0 for k in range(3)): return "[norm_1] norms of the empty vector are not 0: %r" % (items[:3],)
             return None if items[3][0] == 'P' else "[norm_inf] norm_inf of the empty vector returned a value"
         if items[3][0] != 'f': return "[norm_inf] norm_inf of %r panicked" % (v,)
-        return check_norm_values(v, [fl(items, k) for k in range(4)], p, 0)
+        return pick_failure(case, [d for _, d in check_norm_values(v, [fl(items, k) for k in range(4)], p, 0)])
     if kind == "normlaws":
         u, v, c, p = m["u"], m["v"], m["c"], m["p"]
         if len(u) != len(v):
@@ -854,25 +902,32 @@ def oracle(case, items):
         if len(items) != 16 or any(it[0] != 'f' for it in items): return "malformed norm-laws answer %r" % (items[:6],)
         N = [[fl(items, 4 * w + k) for k in range(4)] for w in range(4)]     # rows u, v, u+v, c*u ; columns 1, 2, p, inf
         vecs = normlaws_vectors(m)
+        # every failure of the case is collected; pick_failure reports the first that is not the recorded finding (a
+        # downgraded [norm_2#w] on a range-extreme operand must not hide a norm_1 / norm_p / law failure of the same case)
+        fails = []; bad = set()          # bad: (row, column) of the values that are not the definition's
         # (1) every value is the definition's value of the vector it was computed from (names the failing operation) ...
         for w, vec in enumerate(vecs):
             if not all(math.isfinite(x) for x in vec): continue      # u+v or c*u overflowed entry-wise: nothing is claimed
-            d = check_norm_values(vec, N[w], p, w)
-            if d: return d
-        if not all(math.isfinite(x) for vec in vecs for x in vec): return None
-        # (2) ... and the laws themselves hold between the returned values
+            for k, d in check_norm_values(vec, N[w], p, w):
+                bad.add((w, k)); fails.append(d)
+        if not all(math.isfinite(x) for vec in vecs for x in vec): return pick_failure(case, fails)
+        # (2) ... and the laws themselves hold between the returned values.  A law instance is judged when every value it
+        # involves passed (1) (a value that failed (1) is reported -- or is the recorded finding -- under its own tag).
+        # Clause (1) pins each value to 1e-12 only, a law combines up to three of them: slack 4e-12.
         names = ["norm_1", "norm_2", "norm_p(%r)" % p, "norm_inf"]
-        sl = 1e-12
+        sl = 4e-12
         for k in range(4):
             nu, nv, ns, nc = N[0][k], N[1][k], N[2][k], N[3][k]
-            if min(nu, nv, ns, nc) < 0 or any(x != x for x in (nu, nv, ns, nc)): return "[law] %s is negative or NaN on %r / %r" % (names[k], u, v)
-            if ns > (nu + nv) * (1 + sl) + 1e-300: return "[law] triangle inequality fails for %s: |u+v| = %r > |u| + |v| = %r (u = %r, v = %r)" % (names[k], ns, nu + nv, u, v)
-            if abs(nc - abs(c) * nu) > sl * max(nc, abs(c) * nu) + 1e-300: return "[law] homogeneity fails for %s: |c u| = %r, |c| |u| = %r (c = %r, u = %r)" % (names[k], nc, abs(c) * nu, c, u)
+            ok = lambda *ws: not any((w, k) in bad for w in ws)
+            for w in range(4):
+                if ok(w) and not (N[w][k] >= 0): fails.append("[law] %s is negative or NaN on %r / %r" % (names[k], u, v))
+            if ok(0, 1, 2) and not (ns <= (nu + nv) * (1 + sl) + 1e-300): fails.append("[law] triangle inequality fails for %s: |u+v| = %r > |u| + |v| = %r (u = %r, v = %r)" % (names[k], ns, nu + nv, u, v))
+            if ok(0, 3) and not (abs(nc - abs(c) * nu) <= sl * max(nc, abs(c) * nu) + 1e-300): fails.append("[law] homogeneity fails for %s: |c u| = %r, |c| |u| = %r (c = %r, u = %r)" % (names[k], nc, abs(c) * nu, c, u))
         for w, vec in enumerate((u, v)):
             n1, n2, npp, ninf = N[w][0], N[w][1], N[w][2], N[w][3]
-            if not (ninf <= n2 * (1 + sl) and n2 <= n1 * (1 + sl)): return "[law] norm_inf <= norm_2 <= norm_1 fails on %r: %r, %r, %r" % (vec, ninf, n2, n1)
-            if p >= 1 and not (ninf <= npp * (1 + sl) and npp <= n1 * (1 + sl)): return "[law] norm_inf <= norm_p <= norm_1 fails on %r (p = %r): %r, %r, %r" % (vec, p, ninf, npp, n1)
-        return None
+            if not ({(w, 0), (w, 1), (w, 3)} & bad) and not (ninf <= n2 * (1 + sl) and n2 <= n1 * (1 + sl)): fails.append("[law] norm_inf <= norm_2 <= norm_1 fails on %r: %r, %r, %r" % (vec, ninf, n2, n1))
+            if not ({(w, 0), (w, 2), (w, 3)} & bad) and p >= 1 and not (ninf <= npp * (1 + sl) and npp <= n1 * (1 + sl)): fails.append("[law] norm_inf <= norm_p <= norm_1 fails on %r (p = %r): %r, %r, %r" % (vec, p, ninf, npp, n1))
+        return pick_failure(case, fails)
     if kind in ("linspace", "powspace"):
         a, b, n = m["a"], m["b"], m["n"]
         if not items or items[0] != ('i', n): return "[%s] %s(%r, %r, %d) has length %r" % (kind, kind, a, b, n, items[:1])
@@ -892,16 +947,19 @@ def oracle(case, items):
     if kind == "scale_l":
         s, v = m["s"], m["v"]
         exp = ref_items_v('f64', [s * x for x in v]) + ref_items_v('f64', [x * s for x in v])
-        d = streams_match(exp, items, 1e-15)
+        sc = ([None] + [abs(s * x) for x in v]) * 2                 # every product against its own magnitude
+        d = streams_match(exp, items, 1e-15, sc)
         return ("f64 * vector: " + d) if d else None
     if kind == "cx":
         v = m["v"]
         exp = ref_items_v('cplx', [z.conjugate() for z in v]) + ref_items_v('f64', [z.real for z in v]) + \
               ref_items_v('cplx', [_abs('cplx', z) for z in v])
         exp += [('f', f64_bits(max(_abs('cplx', z).real for z in v)))] if v else [('P', 'index')]
-        d = streams_match(exp, items, 1e-12)
+        mods = [abs(z) for z in v]               # conj / real: identical; |z| (and the maximum) against its own magnitude
+        sc = [None] + [0.0] * (2 * len(v)) + [None] + [0.0] * len(v) + [None] + [t for t in mods for _ in (0, 1)] + ([max(mods)] if v else [None])
+        d = streams_match(exp, items, 1e-12, sc)
         return ("complex vector conj/real/abs/norm_inf: " + d) if d else None
-    if kind == "cnormlaws": return oracle_cnormlaws(m, items)
+    if kind == "cnormlaws": return oracle_cnormlaws(case, items)
     if kind == "n1laws" and elt == 'rat': return oracle_n1laws_rat(m, items)
     if kind == "ctor":
         n, x, w = m["n"], m["x"], m["w"]
